@@ -8,7 +8,7 @@ func init() {
 
 var hDeathPrefixes = [8]int{3, 4, 5, 7, 8, 10, 11, 12}
 
-const hNDeathOps = 6
+const hNDeathOps = 7
 
 func (x *hW) deathStep(op int) {
 	switch op {
@@ -38,6 +38,22 @@ func (x *hW) deathStep(op int) {
 		x.opSetRelation(i, hRelOf(x.set[i]), x.pickOKTarget("tgt"))
 	case 4:
 		x.opReset()
+	case 6: // batch add / remove of other components on children of (possibly dead) targets
+		f := [3]int{fR1, fRelT, fA}[vChoice("filter", 3)]
+		t := Entity{}
+		if f == fRelT {
+			t = x.pickTarget("filter.tgt")
+		}
+		b := x.mkFilter(f, t)
+		var add, rem uint8
+		if vChoice("dir", 2) == 0 {
+			add = 1 << uB
+		} else {
+			rem = 1 << uA
+		}
+		ok, m := x.batchLegal(f, t, add, rem)
+		vAssume(ok && m >= 1)
+		x.opBatchExchange(b.f, f, t, add, rem, 0, vChoice("q", 2) == 1, -1, Entity{})
 	case 5:
 		f, t := x.pickFilter("filter")
 		vAssume(f >= fR1)
